@@ -3,7 +3,9 @@
 package main
 
 import (
+	"encoding/hex"
 	"fmt"
+	"math/big"
 
 	"verifharness/vh"
 )
@@ -26,6 +28,25 @@ func opRegTime(key int, eon int64, id int, ts, blk int64) opSpec {
 func opRegEvent(eon int64, id int, exp, blk int64) opSpec {
 	return opSpec{K: "regevent", Eon: eon, Id: id, Exp: exp, Blk: blk}
 }
+func opRegEventPred(eon int64, id int, exp, blk int64, op, arg, ref string, off uint64) opSpec {
+	return opSpec{K: "regevent", Eon: eon, Id: id, Exp: exp, Blk: blk, Pred: &predSpec{Op: op, Arg: arg, Ref: ref, Off: off}}
+}
+
+var two64 = new(big.Int).Lsh(big.NewInt(1), 64)
+
+// hexInt renders a decimal integer as the hex of its big-endian bytes (a log value).
+func hexInt(dec string) string {
+	n, ok := new(big.Int).SetString(dec, 10)
+	if !ok {
+		panic("bad integer " + dec)
+	}
+	return hex.EncodeToString(n.Bytes())
+}
+
+func logVal(eon int64, id int, blk uint64, dec string) logSpec {
+	return logSpec{Eon: eon, Id: id, Blk: blk, Val: hexInt(dec)}
+}
+
 func opFire(eon int64, id int, blk int64) opSpec {
 	return opSpec{K: "fire", Eon: eon, Id: id, Blk: blk}
 }
@@ -132,15 +153,15 @@ func forcedCases() []histCase {
 	// event triggers: expiry boundaries through the trigger processor
 	add("event-expiry-boundaries", true, true, goodSet(), []opSpec{
 		opRegEvent(1, 21, 200, 90), opRegEvent(1, 22, 200, 90), opRegEvent(1, 23, 200, 90),
-		opFetch(150, 210, logSpec{1, 21, 201}, logSpec{1, 22, 200}, logSpec{1, 23, 199}, logSpec{1, 23, 205}),
+		opFetch(150, 210, logSpec{Eon: 1, Id: 21, Blk: 201}, logSpec{Eon: 1, Id: 22, Blk: 200}, logSpec{Eon: 1, Id: 23, Blk: 199}, logSpec{Eon: 1, Id: 23, Blk: 205}),
 		opBlock(210, 1000),
-		opFetch(201, 220, logSpec{1, 21, 201}), // expired at the start block: not even active
-		opFetch(200, 220, logSpec{1, 21, 200}), // log exactly at the expiry block
+		opFetch(201, 220, logSpec{Eon: 1, Id: 21, Blk: 201}), // expired at the start block: not even active
+		opFetch(200, 220, logSpec{Eon: 1, Id: 21, Blk: 200}), // log exactly at the expiry block
 		opBlock(220, 1001),
 	})
 	add("event-log-outside-range", true, true, goodSet(), []opSpec{
-		opRegEvent(1, 21, 300, 90), opFetch(150, 160, logSpec{1, 21, 149}, logSpec{1, 21, 161}), opBlock(160, 1000),
-		opFetch(161, 170, logSpec{1, 21, 161}, logSpec{2, 21, 162}, logSpec{1, 22, 163}), opBlock(170, 1001),
+		opRegEvent(1, 21, 300, 90), opFetch(150, 160, logSpec{Eon: 1, Id: 21, Blk: 149}, logSpec{Eon: 1, Id: 21, Blk: 161}), opBlock(160, 1000),
+		opFetch(161, 170, logSpec{Eon: 1, Id: 21, Blk: 161}, logSpec{Eon: 2, Id: 21, Blk: 162}, logSpec{Eon: 1, Id: 22, Blk: 163}), opBlock(170, 1001),
 	})
 	add("event-unfire-rollback", true, true, goodSet(), []opSpec{
 		opRegEvent(1, 21, 300, 90), opRegEvent(1, 22, 300, 95), opFire(1, 21, 120), opFire(1, 22, 130), opFire(1, 23, 130),
@@ -150,8 +171,8 @@ func forcedCases() []histCase {
 		opRegEvent(1, 21, 300, 90), opFire(1, 21, 120), opRegTime(1, 1, 11, 990, 90), opBlock(100, 1000),
 	})
 	add("released-event-refires-not", true, true, goodSet(), []opSpec{
-		opRegEvent(1, 21, 300, 90), opFetch(100, 110, logSpec{1, 21, 105}), opBlock(110, 1000), opReleased(1, 21), opBlock(111, 1001),
-		opUnfire(0), opFetch(100, 120, logSpec{1, 21, 105}), opBlock(120, 1002), opRbEvent(90), opRegEvent(1, 21, 300, 90), opFire(1, 21, 125), opBlock(126, 1003),
+		opRegEvent(1, 21, 300, 90), opFetch(100, 110, logSpec{Eon: 1, Id: 21, Blk: 105}), opBlock(110, 1000), opReleased(1, 21), opBlock(111, 1001),
+		opUnfire(0), opFetch(100, 120, logSpec{Eon: 1, Id: 21, Blk: 105}), opBlock(120, 1002), opRbEvent(90), opRegEvent(1, 21, 300, 90), opFire(1, 21, 125), opBlock(126, 1003),
 	})
 	// time rollback (reorg): the row and its flag go, a later registration is a new row
 	add("time-rollback", false, true, goodSet(), []opSpec{
@@ -205,10 +226,48 @@ func forcedCases() []histCase {
 	add("shares-eon-by-block-number", false, false,
 		[]opSpec{opConfig(1, 100, 0, 1), opEon(1, 10, 100, 1), opDkg(1, true, true), opConfig(2, 100, 1, 2), opEon(2, 20, 100, 2), opDkg(2, true, true),
 			opHandle(100, 1), opConfig(3, 100, 1, 0), opEon(3, 30, 100, 3), opDkg(3, true, true), opHandle(150, 1), opEon(4, 5, 120, 1), opHandle(150, 2), opHandle(119, 2)})
+	// predicates on 256 bit words: values that differ from the argument only above bit 63
+	//   2^64 = 18446744073709551616
+	add("event-uint-predicate-high-bits", true, true, goodSet(), []opSpec{
+		opRegEventPred(1, 21, 500, 90, "eq", "5", "static", 4),
+		opRegEventPred(1, 22, 500, 90, "lt", "18446744073709551623", "topic", 1), // < 2^64+7
+		opRegEventPred(1, 23, 500, 90, "gt", "10", "static", 5),
+		opRegEventPred(1, 24, 500, 90, "lte", "7", "dynamic", 4),
+		opRegEventPred(1, 25, 500, 90, "gte", "18446744073709551616", "topic", 3), // >= 2^64
+		opFetch(100, 110,
+			logVal(1, 21, 101, "18446744073709551621"), // 5 + 2^64: not equal to 5
+			logVal(1, 21, 102, "36893488147419103237"), // 5 + 2*2^64
+			logVal(1, 22, 101, "36893488147419103232"), // 2*2^64: not below 2^64+7
+			logVal(1, 24, 101, "18446744073709551623"), // 7 + 2^64 as a 9 byte dynamic value: not <= 7
+			logVal(1, 25, 101, "18446744073709551615"), // 2^64-1: not >= 2^64
+		),
+		opBlock(110, 1000),
+		opFetch(111, 120,
+			logVal(1, 21, 111, "6"), logVal(1, 21, 112, "5"), // the second one matches
+			logVal(1, 22, 113, "18446744073709551622"), // 2^64+6 < 2^64+7
+			logVal(1, 23, 114, "18446744073709551616"), // 2^64 > 10 (low 64 bits are 0)
+			logVal(1, 24, 115, "7"),
+			logVal(1, 25, 116, "18446744073709551616"),
+		),
+		opBlock(120, 1001),
+	})
+	add("event-bytes-predicate", true, true, goodSet(), []opSpec{
+		opRegEventPred(1, 21, 500, 90, "beq", "00000000000000000000000000000000000000000000000100000000000000aa", "topic", 2),
+		opRegEventPred(1, 22, 500, 90, "beq", "0102030405", "dynamic", 5),
+		opFetch(100, 110,
+			logSpec{Eon: 1, Id: 21, Blk: 101, Val: "aa"},                 // low bytes equal, the word is not
+			logSpec{Eon: 1, Id: 22, Blk: 101, Val: "01020304"},           // a prefix
+			logSpec{Eon: 1, Id: 22, Blk: 102, Val: "010203040500"},       // one byte longer
+			logSpec{Eon: 1, Id: 21, Blk: 103, Val: "0100000000000000aa"}, // the word
+		),
+		opBlock(110, 1000),
+		opFetch(111, 120, logSpec{Eon: 1, Id: 22, Blk: 111, Val: "0102030405"}),
+		opBlock(120, 1001),
+	})
 	// two keyper sets with one activation block: the handler selects the eon by block number
 	add("equal-activation-other-set-expired", true, true,
 		[]opSpec{opConfig(1, 100, 0, 1), opEon(1, 10, 100, 1), opDkg(1, true, true), opConfig(2, 100, 0, 2), opEon(2, 11, 100, 2), opDkg(2, true, true),
-			opRegEvent(1, 21, 500, 90), opRegEvent(2, 21, 105, 91), opFetch(100, 120, logSpec{1, 21, 110}, logSpec{2, 21, 110}), opBlock(120, 1000)})
+			opRegEvent(1, 21, 500, 90), opRegEvent(2, 21, 105, 91), opFetch(100, 120, logSpec{Eon: 1, Id: 21, Blk: 110}, logSpec{Eon: 2, Id: 21, Blk: 110}), opBlock(120, 1000)})
 	// row order oracle on
 	for i := range cs {
 		if i%3 == 1 {
@@ -239,6 +298,7 @@ type genState struct {
 	keyId    map[int]int
 	evs      [][2]int64 // (set, id label)
 	expOf    map[[2]int64]int64
+	predOf   map[[2]int64]*predSpec
 	lastIds  map[int64][]int // per set: identity labels most recently registered
 }
 
@@ -390,8 +450,13 @@ func (g *genState) regEvent() {
 	if blk < 0 {
 		blk = 0
 	}
-	g.emit(opRegEvent(set, id, exp, blk))
+	o := opRegEvent(set, id, exp, blk)
+	if g.r.Chance(1, 2) {
+		o.Pred = g.genPred()
+	}
+	g.emit(o)
 	k := [2]int64{set, int64(id)}
+	g.predOf[k] = o.Pred
 	if _, ok := g.expOf[k]; !ok {
 		g.evs = append(g.evs, k)
 	}
@@ -434,12 +499,101 @@ func (g *genState) fireOrFetch() {
 		default:
 			blk = start + uint64(g.r.Intn(int(end-start)+1))
 		}
-		logs = append(logs, logSpec{Eon: k[0], Id: int(k[1]), Blk: blk})
+		logs = append(logs, logSpec{Eon: k[0], Id: int(k[1]), Blk: blk, Val: g.genVal(g.predOf[k])})
 	}
 	if g.r.Chance(1, 6) {
 		logs = append(logs, logSpec{Eon: g.pickSet(), Id: 48 + g.r.Intn(3), Blk: g.number})
 	}
 	g.emit(opFetch(start, end, logs...))
+}
+
+// genPred: a predicate over a topic, a static or a dynamic data value, with arguments below,
+// at and above 2^64.
+func (g *genState) genPred() *predSpec {
+	p := &predSpec{}
+	switch g.r.Intn(6) {
+	case 0:
+		p.Ref, p.Off = "topic", uint64(1+g.r.Intn(3))
+	case 1, 2:
+		p.Ref, p.Off = "static", uint64(4+g.r.Intn(3))
+	case 3:
+		p.Ref, p.Off = "dynamic", uint64(4+g.r.Intn(2))
+	default:
+		p.Ref, p.Off = "static", 4
+	}
+	if g.r.Chance(1, 8) && p.Ref != "static" {
+		p.Op = "beq"
+		n := 32
+		if p.Ref == "dynamic" {
+			n = 1 + g.r.Intn(40)
+		}
+		p.Arg = hex.EncodeToString(g.r.Bytes(n))
+		return p
+	}
+	p.Op = vh.Pick(g.r, "lt", "lte", "eq", "eq", "gt", "gte")
+	arg := new(big.Int)
+	switch g.r.Intn(6) {
+	case 0:
+		arg.SetInt64(int64(g.r.Intn(10)))
+	case 1:
+		arg.SetUint64(g.r.U64())
+	case 2:
+		arg.Sub(two64, big.NewInt(1))
+	case 3:
+		arg.Set(two64)
+	case 4:
+		arg.Add(two64, big.NewInt(int64(g.r.Intn(10))))
+	default:
+		arg.Lsh(big.NewInt(int64(1+g.r.Intn(9))), uint(64+g.r.Intn(100)))
+	}
+	p.Arg = arg.String()
+	return p
+}
+
+// genVal: a log value around the predicate's argument, mostly differing from it above bit 63.
+func (g *genState) genVal(p *predSpec) string {
+	if p == nil {
+		return ""
+	}
+	if p.Op == "beq" {
+		b := p.byteArg()
+		switch g.r.Intn(3) {
+		case 0:
+			b[g.r.Intn(len(b))] ^= 0x01
+		case 1:
+			if p.Ref == "dynamic" {
+				b = append(b, 0)
+			}
+		}
+		return hex.EncodeToString(b)
+	}
+	a := p.intArg()
+	v := new(big.Int).Set(a)
+	k := big.NewInt(int64(1 + g.r.Intn(3)))
+	switch g.r.Intn(9) {
+	case 0: // the argument itself
+	case 1:
+		v.Add(a, big.NewInt(1))
+	case 2:
+		if a.Sign() > 0 {
+			v.Sub(a, big.NewInt(1))
+		}
+	case 3, 4: // same low 64 bits, more above
+		v.Add(a, new(big.Int).Mul(k, two64))
+	case 5: // same low 64 bits, less above
+		if a.Cmp(two64) >= 0 {
+			v.Sub(a, two64)
+		} else {
+			v.Add(a, two64)
+		}
+	case 6:
+		v.Set(two64)
+	case 7:
+		v.Add(two64, big.NewInt(int64(g.r.Intn(3))-1))
+	default:
+		v.SetInt64(0)
+	}
+	return hex.EncodeToString(v.Bytes())
 }
 
 func (g *genState) release() {
@@ -499,7 +653,7 @@ func (g *genState) handle() {
 
 func genHist(r *vh.RNG, i int) histCase {
 	g := &genState{r: r, time: 1000, number: 100, nextEon: 1, cfgAct: map[int32]int64{}, eonCfg: map[int64]int64{},
-		hasDkg: map[int64]bool{}, keySet: map[int]int64{}, keyId: map[int]int{}, expOf: map[[2]int64]int64{}, lastIds: map[int64][]int{}}
+		hasDkg: map[int64]bool{}, keySet: map[int]int64{}, keyId: map[int]int{}, expOf: map[[2]int64]int64{}, predOf: map[[2]int64]*predSpec{}, lastIds: map[int64][]int{}}
 	c := histCase{Name: fmt.Sprintf("random-%d", i), Events: r.Chance(4, 5), MaxKeys: uint64(vh.Pick(r, 1, 2, 3, 8, 8, 8, 64)), Auto: r.Chance(4, 5)}
 	if r.Chance(1, 2) {
 		c.OrderSeed = r.U64() | 1
